@@ -1067,6 +1067,7 @@ DEAD_BRANCHES = {
     "generate_arithm|arm|ExprType::A(s)": "right2 never is A: an accumulator right operand was stored to cctmp just above",
     "generate_plusplus|then|((v.var_type==VariableType::Short)||((v.var_type==": "the enclosing arm already fixed var_type to another variant",
     "generate_plusplus|then|((v.var_type==VariableType::CharPtrPtr)||(v.var_ty": "the enclosing arm already fixed var_type to another variant",
+    "generate_plusplus|then|wide": "the else side of `if !superchip && wide`: without the atari2600 feature `superchip` is constantly false, so `wide` is false here (with the feature the branch is live and entered)",
     "generate_condition_ex|arm|ExprType::Tmp(_)": "under `flags_ok(&self.flags, left)`, which is never true for a cctmp operand",
     "generate_condition_ex|then|letExprType::Immediate(v)=left": "under `flags_ok(&self.flags, left)`, which is never true for a constant",
     "generate_condition_ex|then|(((operator==Operation::Neq)&&(v!=0))||((operator=": "inside the dead branch above",
